@@ -372,7 +372,9 @@ def run_all(harnesses, tier_timeout, mem_kb, on_result=None, nworkers=None):
 
 
 # --------------------------------------------------------------------------- run one harness
-CHECK_RE = re.compile(r"^Check (\d+): (.+)\n\t - Status: (\S+)\n\t - Description: \"(.*)\"\n(?:\t - Location: (.*)\n)?", re.M)
+# the description of an assert!(..) whose expression rustfmt wrapped over several lines contains newlines: match it non-greedily
+# across lines (a check that is not parsed would turn a genuine FAILURE into "verdict FAILED without identified failing check")
+CHECK_RE = re.compile(r"^Check (\d+): ([^\n]+)\n\t - Status: (\S+)\n\t - Description: \"(.*?)\"\n(?:\t - Location: ([^\n]*)\n)?", re.M | re.S)
 
 
 class Result:
@@ -400,7 +402,7 @@ def parse_output(r):
     h = r.h
     r.checks = []
     for m in CHECK_RE.finditer(out):
-        r.checks.append({"id": m.group(2), "status": m.group(3), "desc": m.group(4), "loc": m.group(5) or ""})
+        r.checks.append({"id": m.group(2), "status": m.group(3), "desc": re.sub(r"\s+", " ", m.group(4)), "loc": m.group(5) or ""})
     r.n_checks = len(r.checks)
     m = re.search(r"Verification Time: ([0-9.]+)s", out)
     r.solver_s = float(m.group(1)) if m else 0.0
